@@ -67,5 +67,8 @@ func (merr *MultiError) Add(err error) {
 
 // Empty returns whether the *MultiError contains any errors.
 func (merr *MultiError) Empty() bool {
+	merr.mu.RLock()
+	defer merr.mu.RUnlock()
+
 	return len(merr.errs) == 0
 }
